@@ -63,7 +63,7 @@ def floors(tier):
             'ascii_checked': 10000, 'fail_policy_decided': 5000, 'fail_policy_raised': 200,
             'histkeys:scheme': 5, 'histkeys:ruleset': 2, 'histkeys:policy': 5, 'k1_witness_checked': 5,
             'codepoints_probed_alone': 1000, 'module_function_calls': 5000, 'module_fail_policy_raised': 100,
-            'legacy_function_calls': 5000, 'partial_encoders_built_on_the_shared_rule_list': 2000, 'legacy_fail_raised': 500, 'histkeys:legacy_flags': 16}
+            'legacy_function_calls': 5000, 'encoded_after_legacy_table_edit': 100, 'partial_encoders_built_on_the_shared_rule_list': 2000, 'legacy_fail_raised': 500, 'histkeys:legacy_flags': 16}
 
 
 def setup(rec):
@@ -356,6 +356,31 @@ def run_shard(desc, rec):
                 rec.nontrivial((s, rs, sc, po))
                 check_case({'s': s, 'ruleset': rs, 'scheme': sc, 'policy': po}, rec)
     elif kind == 'module':
+        # a pylatexenc-1 style caller customises utf8tolatex() by editing the module-level dictionary utf82latex (documented
+        # as still possible): the encoder classes and unicode_to_latex() keep their built-in rules
+        from pylatexenc import latexencode
+        legacy_tab = latexencode.utf82latex
+        edited = (ord('$'), ord('%'), ord('{'), 0xe9)
+        saved = {k: legacy_tab.get(k) for k in edited}
+        legacy_tab[ord('$')] = '$'
+        legacy_tab[ord('{')] = '{'
+        legacy_tab[0xe9] = '\xe9'
+        del legacy_tab[ord('%')]
+        try:
+            for s in ['$', 'a$b', '%', '100% $x$', '{', 'a{b', '\xe9', 'caf\xe9 $5 {x} 10%']:
+                for (rs, sc, po) in combos(len(s), True):
+                    rec.case()
+                    rec.monitor('encoded_after_legacy_table_edit')
+                    check_case({'s': s, 'ruleset': rs, 'scheme': sc, 'policy': po}, rec)
+                for po in POLICIES:
+                    rec.case()
+                    check_case({'what': 'module', 's': s, 'scheme': 'braces', 'policy': po, 'non_ascii_only': False}, rec)
+        finally:
+            for k, v in saved.items():
+                if v is None:
+                    legacy_tab.pop(k, None)
+                else:
+                    legacy_tab[k] = v
         keys = [k for k in sorted(table('defaults')) if k != 127]
         pool = ACTIVE + ['a', 'b', ' ', 'e']
         for i in range(desc['count']):
